@@ -27,7 +27,10 @@ REGISTER = True
 TECHNIQUE = ("runtime monitoring: snapshot differencing of the processor object graph around every assignment, "
              "read-back, literal-conversion oracle, probe-model trace of runs started through every entry point")
 RULE = ("random CCD/CMOS/MKID/APD processors with generated probe pipelines (1-4 groups, 1-3 models, 1-5 arguments, "
-        "names that are prefixes of each other); every valid key x one value shape per case; ~60 tricky texts; "
+        "names that are prefixes of each other, model names shared between groups in half of the cases, dictionary-valued "
+        "arguments whose entries are addressed with one more key component); every valid key x one value shape per case; "
+        "sweep-like histories (2-5 copies of one processor through Processor.replace / deepcopy+set, valid observation "
+        "sweeps seq/dask/YAML over 1-2 keys) judged after all points; ~60 tricky texts; "
         "~60 mutated keys per case (edit, abbreviation, truncation at each dot, extension, wrong group/model/argument, "
         "dots, root, case) through has/get/set, override_dct, pyxel.run(override=), observation (seq/dask/YAML), "
         "calibration; sweeps of undeclared arguments and of disabled models; an evaluation = one (entry point, key, "
@@ -45,6 +48,13 @@ ASSUMPTIONS = [
     "interpretation: a valid key with an in-range native value (number, text, list, ndarray) must be applied, not "
     "refused; has() must be True for every catalogued setting; a non-literal text without surrounding quotes must be "
     "kept verbatim (refusing it counts as a violation); has() answering True for a non-setting is only counted",
+    "an entry of a dictionary-valued argument (pipeline.<g>.<m>.arguments.<a>.<entry>) may be refused as a whole (has() "
+    "False / rejected before any pipeline); when it is accepted, everything demanded of a setting applies, except the "
+    "read-back through Processor.get which is observe-only (reported finding: get raises AttributeError)",
+    "a copy of a processor (Processor.replace, deepcopy) is how sweeps assign: assignments on a copy must leave the "
+    "public settings of the original and of the other copies as configured; the dask path may run a point twice",
+    "two swept keys with the same (model name, argument name) in two groups collide in the axis labels of the result: "
+    "counted (layout of sweep results is another property)",
     "an accepted key whose components all name existing objects exactly (e.g. 'detector', a private alias) is "
     "tolerated when it replaces exactly that object or the run then dies before any model; it is a violation when it "
     "adds an attribute / dict entry or changes nothing and the pipeline still runs",
@@ -67,8 +77,8 @@ LEVEL_TEXT = ("Exploration by runtime monitoring: thousands (quick) to tens of t
 LEVEL_NOTE = ("Trusted: vf.snapshot walker, ast.literal_eval, the field catalogue copied from the documentation, the probe "
               "model (reads public attributes only).")
 
-# Known finding (KNOWN_FINDINGS.json, status=known): Processor.get of an argument whose name collides with a
-# Mapping method returns the bound method.  Raised with exactly this mechanism, only for that input class.
+# Fixed finding (134d9c9): Processor.get of an argument whose name collides with a Mapping method returned the
+# bound method.  Still raised with exactly this mechanism, only for that input class, should it come back.
 MAPPING_METHOD_MECH = "C08:get:argument-named-like-mapping-method"
 MAPPING_NAMES = ("values", "keys", "items", "get", "update", "pop", "clear", "setdefault", "popitem")
 
@@ -872,17 +882,7 @@ def check_assignment(rec, pr, kind, key, info, given, convert, case, index, nati
         ok = False
 
     # (4) read-back through Processor.get
-    if cls == ENTRY:
-        # observe-only (reported, awaiting an answer): on the unchanged tree Processor.get raises AttributeError
-        # for an entry of a dictionary argument although has() is True and set() assigns it
-        try:
-            got = pr.get(key)
-        except Exception as exc:  # noqa: BLE001
-            rec.count("entry_get_raised")
-            rec.observe("entry_get_exceptions", type(exc).__name__)
-            return ok
-        rec.count("entry_readback_ok" if judge_value(got, ekind, alts) or same(got, new) else "entry_readback_differs")
-        return ok
+    # (entries of dictionary arguments are read back like every other setting since fix 134d9c9 in /repo)
     try:
         got = pr.get(key)
     except Exception as exc:  # noqa: BLE001
@@ -1370,8 +1370,10 @@ def phase_sweeps(rec, rng, kind, dspec, pspec, vkeys, case, index):
 
 
 # ------------------------------------------------------------------ sweeps of valid keys: every point is a copy
-def gen_point_value(rng, info, avoid=()):
-    """A native value with exactly one expected stored form (no conversion alternatives)."""
+def gen_point_value(rng, info, avoid=(), shape=None):
+    """A native value with exactly one expected stored form (no conversion alternatives).
+    shape: 'int' | 'float' | 'text' for an argument (one axis of a sweep holds one kind of value)."""
+    shape = shape or rng.choice(["int", "float", "text"])
     for _ in range(20):
         if info["cls"] == "detector-field":
             typ, lo, hi = info["spec"]
@@ -1384,8 +1386,8 @@ def gen_point_value(rng, info, avoid=()):
         elif info["cls"] == "enabled-flag":
             v = rng.random() < 0.5
         else:
-            v = rng.choice([rng.randint(-99, 99), round(rng.uniform(-5, 5), 3), rng.choice(["alpha", "b.fits", "x y"]),
-                            rng.randint(100, 999)])
+            v = {"int": rng.randint(-99, 999), "float": round(rng.uniform(-5, 5), 3),
+                 "text": rng.choice(["alpha", "b.fits", "x y", "dir/c.fits", "beta", "f0.txt"])}[shape]
         if not any(same(v, x) for x in avoid):
             return v
     return v
@@ -1510,7 +1512,8 @@ def phase_sweep_valid(rec, rng, kind, dspec, pspec, vkeys, case, index):
         if info["cls"] in ("model-argument", ENTRY):
             if (info["group"], info["model"]) in enabled and info["arg"] not in MAPPING_NAMES:
                 cands.append(k)
-        elif info["cls"] == "detector-field" and info["spec"][0] == "float" and info["field"] not in APD_LINKED:
+        elif info["cls"] == "detector-field" and info["spec"][0] == "float" and info["field"] not in APD_LINKED \
+                and info["field"] in dspec[info["sec"]]:  # a field the configuration specifies
             cands.append(k)
     base = baseline_fields(dspec)
     for dask in (False, True):
@@ -1518,11 +1521,9 @@ def phase_sweep_valid(rec, rng, kind, dspec, pspec, vkeys, case, index):
         swept = pick_swept(rng, vkeys, cands, rng.choice([1, 1, 2]))
         values = {}
         for k in swept:
-            vals = []
+            vals, shape = [], rng.choice(["int", "float", "text"])
             for _ in range(rng.randint(2, 3)):
-                vals.append(gen_point_value(rng, vkeys[k], avoid=vals))
-            if any(isinstance(v, str) for v in vals):  # one axis holds one kind of value
-                vals = [v if isinstance(v, str) else f"f{n}.fits" for n, v in enumerate(vals)]
+                vals.append(gen_point_value(rng, vkeys[k], avoid=vals, shape=shape))
             values[k] = vals
         mode = "product" if len(swept) > 1 else rng.choice(["product", "sequential"])
         points = [{}]
@@ -1532,7 +1533,7 @@ def phase_sweep_valid(rec, rng, kind, dspec, pspec, vkeys, case, index):
         params = [{"key": k, "values": values[k]} for k in swept]
         c = dict(case, entry=f"observation:{path}:{'yaml' if via_yaml else 'api'}", mode=mode, parameters=params, swept="valid")
         rec.case(["sweep-valid", dask, via_yaml, mode, params, kind], True, sample=c)
-        all_entries = all(vkeys[k]["cls"] == ENTRY for k in swept)
+        has_entry = any(vkeys[k]["cls"] == ENTRY for k in swept)  # an entry key may be refused (before any pipeline)
         probes.reset()
         exc, before, after = None, None, None
         try:
@@ -1554,11 +1555,20 @@ def phase_sweep_valid(rec, rng, kind, dspec, pspec, vkeys, case, index):
         events = probes.events()
         rec.count("probe_events", len(events))
         tag = f"C08:observation-{path}:valid-sweep"
+        # two models of the same name (in two groups) with an argument of the same name get the same axis label in
+        # the result: the sweep then fails while the result is assembled.  Not a matter of key addressing (the
+        # layout of sweep results is another property): counted and reported, not raised here.
+        labels = [(vkeys[k].get("model"), k.rsplit(".", 1)[1]) for k in swept]
+        if exc is not None and len(set(labels)) < len(labels):
+            rec.count("sweep_valid_axis_label_collision")
+            rec.observe("sweep_valid_axis_label_collisions", f"{path}:{type(exc).__name__}:{'after' if events else 'before'} pipelines")
+            continue
         if exc is not None:
             if events:
                 report(rec, f"{tag}:failed-after-models-ran", f"{params!r}: {type(exc).__name__}: {str(exc)[:200]}", c, index)
-            elif all_entries:
+            elif has_entry:
                 rec.count("sweep_valid_entry_refused_tolerated")
+                rec.observe("sweep_valid_entry_refusals", f"{path}:{len(swept)} keys:{type(exc).__name__}")
             else:
                 report(rec, f"{tag}:refused", f"{params!r}: {type(exc).__name__}: {str(exc)[:200]}", c, index)
             continue
@@ -1569,7 +1579,9 @@ def phase_sweep_valid(rec, rng, kind, dspec, pspec, vkeys, case, index):
         ok = True
         for run in runs.values():
             hit, why = None, None
-            for n in todo:
+            # the dask path may run a point once more (to learn the layout of a result): there every pipeline must be
+            # some point of the sweep; on the sequential path every point is run exactly once
+            for n in todo + ([n for n in range(len(points)) if n not in todo] if dask else []):
                 pt = points[n]
                 allowed, problems = set(), []
                 for k, v in pt.items():
@@ -1593,9 +1605,13 @@ def phase_sweep_valid(rec, rng, kind, dspec, pspec, vkeys, case, index):
                 report(rec, f"{tag}:pipeline-matches-no-point", f"a pipeline of the sweep {params!r} saw settings that are no "
                        f"remaining point of it, e.g. {why[:2] if why else 'more pipelines than points'}", c, index)
                 ok = False
-            else:
+            elif hit in todo:
                 todo.remove(hit)
-        if todo and ok:
+            else:
+                rec.count("sweep_valid_dask_point_run_again")
+        if todo and ok and via_yaml and dask:
+            rec.count("sweep_valid_lazy_result_not_loaded")  # pyxel.run does not hand out the lazy result
+        elif todo and ok:
             report(rec, f"{tag}:point-not-run", f"sweep {params!r}: {len(runs)} pipelines, points never seen: "
                    f"{[points[n] for n in todo][:3]}", c, index)
             ok = False
